@@ -517,3 +517,19 @@ Qed.
 Theorem calls_dims_first : forall e, panicked (calls e) = false ->
   Forall2 extends (calls e) (map leaf_item (leaves e)).
 Proof. intros e; rewrite calls_spec; apply spec_dims_first. Qed.
+
+(* ------------------------------------------------------------------ two algebraic laws *)
+Lemma i_dims_nest : forall d1 d2 i, i_dims d2 (i_dims d1 i) = i_dims (d1 ++ d2) i.
+Proof. destruct i as [| |n c]; cbn; auto. destruct c; cbn; auto. rewrite app_assoc; reflexivity. Qed.
+Lemma i_dims_force_comm : forall d f i, i_dims d (i_force f i) = i_force f (i_dims d i).
+Proof. destruct i as [| |n c]; cbn; auto. destruct c; cbn; auto. destruct (try_merge fl (Some f)); reflexivity. Qed.
+
+(* nested WithDimensions: inner dimensions first *)
+Lemma calls_dims_nest : forall e d1 d2, calls (WithDimsE (WithDimsE e d1) d2) = calls (WithDimsE e (d1 ++ d2)).
+Proof. intros. rewrite !calls_spec. cbn. rewrite map_map. apply map_ext. apply i_dims_nest. Qed.
+(* WithDimensions and ForceFlag commute *)
+Lemma calls_dims_force_comm : forall e d f, calls (WithDimsE (ForceE e f) d) = calls (ForceE (WithDimsE e d) f).
+Proof.
+  intros. rewrite !calls_spec. cbn [spec_calls].
+  rewrite map_cut_same by apply i_dims_is_panic. rewrite !map_map. f_equal. apply map_ext. apply i_dims_force_comm.
+Qed.
